@@ -86,6 +86,20 @@ def real_outcome(resp):
     return kind, False, rest[:100]
 
 
+FOR_LINE = re.compile(r"^(\s*for \w+ in )(.*)( \{)$", re.M)
+
+
+def lossy_for_iterable(ctx, src):
+    """True if the program is accepted only because a `for` iterable was CHECKED against List<Any>
+    (known findings any-from-checked-if / error-from-checked-list): parenthesising the iterables makes
+    the real `check` report an error."""
+    src2 = FOR_LINE.sub(lambda m: m.group(1) + "(" + m.group(2) + ")" + m.group(3), src)
+    if src2 == src:
+        return False
+    rv = real_verdict(ctx.garden_batch(["check " + hexs(src2)])[0])
+    return rv is not None and rv[0] == 0 and bool(rv[1])
+
+
 def model_check(resp):
     """-> ('accept'|'reject'|'outside'|'parse-error'|'bad', first diag, frag)"""
     if resp is None or not resp.startswith("OK"):
@@ -116,8 +130,8 @@ def model_run(resp):
 
 def run(ctx):
     rng = ctx.rng
-    n_base = ctx.scale(450, 12000)
-    per_mut = ctx.scale(28, 900)
+    n_base = ctx.scale(300, 12000)
+    per_mut = ctx.scale(20, 900)
     progs = []      # (src, mutation or None)
     feats = {}
     while len(progs) < n_base:
@@ -191,6 +205,10 @@ def run(ctx):
             okey = "C16/%s:%s" % (cls, key)
             if mut == "any-from-if":
                 okey = "C16/any-from-checked-if"
+            elif lossy_for_iterable(ctx, src):
+                # diagnosis on the real checker alone: with every `for` iterable parenthesised (so that
+                # its type is inferred instead of checked against List<Any>) the program is rejected
+                okey = "C16/error-from-checked-list"
             ctx.fail(okey, "check accepts a fully annotated program whose run raises a type error (%s): %s"
                      % (cls, msg[:160]), src=src, mutation=mut, runtime_message=msg,
                      replay="garden check --json f.gdn (no error diagnostics); garden run f.gdn")
@@ -277,7 +295,7 @@ def run(ctx):
         "the real run is bounded by a tick limit of 40000 (non-termination is skipped)",
         "fragment hypotheses of the theorem (Check.fullyAnnotated): first-order, binders do not reuse function/"
         "prelude names, no `if … else` directly inside a list literal that is directly a `for` iterable "
-        "(known finding C16/any-from-checked-if), no toplevel `return`",
+        "(known findings C16/any-from-checked-if, C16/error-from-checked-list), no toplevel `return`",
     ]
     ctx.log("programs=%d accepted base=%s mutants accepted=%d/%d verdict_dis=%d run_dis=%d" % (
         len(progs), acc["base"], ctx.cov["mutants_accepted"], ctx.cov["mutants_total"], len(verdict_dis), len(run_dis)))
